@@ -670,68 +670,48 @@ func userFnCapture(cl *ssa.Function, v ssa.Value) bool {
 }
 
 func c13L5(r *Run, rep *core.Report) {
-	lc := lockedClosures(r)
-	rep.MinCount("C13.L5", "cache-layer closures run under the bucket lock", len(lc), 10)
-	for _, f := range r.P.Funcs {
-		site, ok := lc[f]
-		if !ok {
-			continue
-		}
-		rep.Fn(fn(f))
-		okAll := true
-		var visit func(g *ssa.Function, depth int, chain string)
-		seen := map[*ssa.Function]bool{}
-		visit = func(g *ssa.Function, depth int, chain string) {
-			if seen[g] || depth > 6 {
-				return
+	// role evaluation of every public cache method: while the closure of a read-modify-write operation runs (under
+	// the bucket lock) no evicted callback, no visitor and no other function value except the user's compute function
+	// is called, and no further operation of the underlying map is issued (it would lock a bucket again).
+	n := 0
+	for twin := 0; twin < 2; twin++ {
+		for _, name := range cachePublic {
+			mp := methodPaths(r, twin, name)
+			if undecidedPaths(r, rep, "C13.L0", mp) {
+				continue
 			}
-			seen[g] = true
-			core.Instrs(g, func(in ssa.Instruction) {
-				c, ok := in.(ssa.CallInstruction)
-				if !ok {
-					return
-				}
-				if _, isGo := in.(*ssa.Go); isGo {
-					return
-				}
-				cc := c.Common()
-				pos := r.P.InstrPos(in)
-				if name, mm, ok := r.M.ItemsInvoke(c); ok {
-					meth := mm.Methods[name]
-					var why []string
-					for eff := range core.Blocking {
-						if w, ok := r.E.Has(meth, eff); ok {
-							why = append(why, eff+" via "+w)
+			rep.Fn(fn(mp.Fn))
+			bad := map[string]string{}
+			for pi := range mp.Paths {
+				p := &mp.Paths[pi]
+				for _, ev := range p.Events {
+					if ev.InOp == 0 {
+						continue
+					}
+					n++
+					switch ev.Kind {
+					case "callback":
+						bad["cb"+ev.Pos] = "the evicted callback is invoked at " + ev.Pos + " from inside the closure of a read-modify-write operation, i.e. while the bucket lock is held: a callback that re-enters the cache on a key of the same bucket deadlocks"
+					case "dyncall":
+						bad["dyn"+ev.Pos] = "a function value that is not the user's compute function (" + ev.Name + ") is called at " + ev.Pos + " while the bucket lock is held"
+					case "mapop":
+						bad["op"+ev.Pos] = "the map operation " + ev.Name + " at " + ev.Pos + " is issued from inside the closure of another read-modify-write operation (under its bucket lock): self-deadlock when both keys share a bucket, or lock-order inversion with a resize"
+					case "usercall":
+						// the user's compute function runs under the lock by the property's own exception; a visitor must not
+						if name == "Range" || name == "Items" {
+							bad["visit"+ev.Pos] = "the Range visitor is invoked at " + ev.Pos + " while a bucket lock is held"
 						}
 					}
-					if len(why) > 0 {
-						okAll = false
-						rep.Fail("C13.L5", fn(f)+" reaches "+mm.Name+"."+name+" under lock", pos, "a closure that runs under the bucket lock (passed at "+r.P.InstrPos(site)+") calls a locking map operation"+chain+": self-deadlock on the same bucket; "+strings.Join(why, "; "))
-					}
-					return
 				}
-				if core.IsBuiltinCall(c) != "" || cc.IsInvoke() {
-					return
-				}
-				cal := core.Callee(c)
-				if cal == nil {
-					if userFnCapture(g, cc.Value) && g == f {
-						return
-					}
-					okAll = false
-					role := core.FuncValueRole(g, cc.Value)
-					rep.Fail("C13.L5", fn(f)+" calls "+role+" under lock", pos, "a closure that runs under the bucket lock (passed at "+r.P.InstrPos(site)+") invokes a function value that is not the user's compute function of this call"+chain+" (type "+typeName(cc.Value.Type())+"): evicted callbacks and visitors may re-enter the cache and must run unlocked")
-					return
-				}
-				if _, inLib := r.E.Of[cal]; inLib {
-					visit(cal, depth+1, chain+" -> "+fn(cal))
-				}
-			})
-		}
-		visit(f, 0, "")
-		if okAll {
-			rep.Pass("C13.L5", fn(f), r.P.Pos(f.Pos()), "runs under the bucket lock; calls only the user's compute function and lock-free helpers")
+			}
+			pos := r.P.Pos(mp.Fn.Pos())
+			if len(bad) == 0 {
+				rep.Pass("C13.L5", fn(mp.Fn)+" locked closures", pos, "closures running under the bucket lock call only the user's compute function and issue no map operation")
+			}
+			for _, k := range sortedKeysS(bad) {
+				rep.Fail("C13.L5", fn(mp.Fn)+" locked closures", pos, bad[k])
+			}
 		}
 	}
-	// direct callback / visitor call sites in package cache must be outside locked closures: covered above.
+	rep.MinCount("C13.L5", "events inside read-modify-write closures", n, 8)
 }
